@@ -39,7 +39,7 @@ def world_cfg(case):
           "always_reconnect": f["always"], "reconnect_wait": f["wait"]}
     p2 = {"name": "peer2.example", "ip": ["10.1.1.2"], "persistent": False}
     return {"peers": [p1, p2], "apps": [{"app_id": 4, "auth": True, "peers": [0, 1], "handler": "answer"}],
-            "node_timers": {"idle": 1000, "dwa": 10, "cer": 3, "cea": 3, "wakeup": f["wakeup"]},
+            "node_timers": {"idle": f.get("idle", 1000), "dwa": 10, "cer": 3, "cea": 3, "wakeup": f["wakeup"]},
             "default_dial": "inprogress", "sched_seed": case.get("seed", 0)}
 
 
@@ -69,6 +69,7 @@ def evaluate(case) -> Result:
         inbound_cids = {}        # cid -> Conn for inbound handshakes by peer1
         dpr_cids = set()
         closed_cids = set()
+        dpr_conns = []
         simul_open = set()       # inbound connections of peer1 identified while a self-initiated one was live
         log_pos = [0]
         state = {"last_disc": None, "reason_dpr": False, "losses": 0, "initial_ok": initial_ok, "waited": False,
@@ -134,6 +135,11 @@ def evaluate(case) -> Result:
                     state["last_disc"], state["reason_dpr"] = ti, cid in dpr_cids
                     state["losses"] += 1
             log_pos[0] = len(log)
+            # a connection on which a DPR was answered is out of service for good
+            for dc in dpr_conns:
+                ncx = w.node_conn_for(dc)
+                if ncx is not None and ncx.state in pm.PEER_READY_STATES:
+                    res.v("C12/dpr/ready-again", f"conn {dc.idx} received a DPR (answered 2001) and is in state {ncx.state:#x} again at step {step}")
             # promptness
             now = int(w.k.now)
             ld = state["last_disc"]
@@ -180,6 +186,13 @@ def evaluate(case) -> Result:
                 ci = w.handshake_in("peer1.example", auth=[4], ip="10.1.1.1", hbh=0x200 + i)
                 if ci is not None:
                     inbound_cids[ci.remote.cid] = ci
+            elif kind == "DWA":
+                # a DWA on the newest connection of peer1 that is still open on the peer's side (also one that got a DPR)
+                tgt = [c for c in w.conns if (c.host == "peer1.example") and not c.node_closed and not c.peer_closed]
+                if tgt:
+                    hbh += 1
+                    w.feed_msg(tgt[-1], {"k": "DWA", "host": "peer1.example", "hbh": hbh, "e2e": hbh})
+                    res.classes.append("dwa-event")
             elif kind == "CLOSE" and cur is not None:
                 w.peer_close(cur)
             elif kind == "RESET" and cur is not None:
@@ -192,6 +205,7 @@ def evaluate(case) -> Result:
                 w.feed_msg(cur, {"k": "DPR", "host": "peer1.example", "hbh": hbh, "e2e": hbh})
                 if ready:
                     dpr_cids.add(cur.remote.cid)
+                    dpr_conns.append(cur)
                     dpas = [x for x in cur.refresh()[n0:] if x.code == W.CMD_DP and not x.is_request and x.h["hbh"] == hbh]
                     if len(dpas) != 1 or dpas[0].result_code() != 2001:
                         res.v("C12/dpr/answer", f"DPR answered with {[x.brief() for x in cur.out[n0:]]}")
@@ -248,12 +262,13 @@ def shard_main(shard, nshards, tier, scale):
         wait = draw(st.integers(1, 6 if small else 60))
         flags = {"persistent": draw(st.sampled_from([True, True, True, False])),
                  "always": draw(st.booleans()), "wait": wait,
-                 "addr": draw(st.sampled_from([True, True, True, False])), "wakeup": draw(st.integers(1, 6))}
+                 "addr": draw(st.sampled_from([True, True, True, False])), "wakeup": draw(st.integers(1, 6)),
+                 "idle": draw(st.sampled_from([1000, 1000, 2]))}
         adv = st.tuples(st.just("ADV"), st.one_of(st.integers(1, 3), st.integers(1, wait + 8)))
         ev = st.one_of(adv, adv, st.tuples(st.just("CONNECT_OK")), st.tuples(st.just("CONNECT_OK")),
                        st.tuples(st.just("CONNECT_FAIL")), st.tuples(st.just("CEA"), st.sampled_from([2001, 2001, 3010])),
                        st.tuples(st.just("INBOUND")), st.tuples(st.just("CLOSE")), st.tuples(st.just("RESET")),
-                       st.tuples(st.just("DPR")), st.tuples(st.just("DPR_CLOSE")))
+                       st.tuples(st.just("DPR")), st.tuples(st.just("DPR")), st.tuples(st.just("DWA")), st.tuples(st.just("DPR_CLOSE")))
         plan = draw(st.lists(st.sampled_from(["ok", "inprogress", "inprogress", ["sync-error", 111], ["sync-error", 101]]),
                              max_size=6))
         return {"flags": flags, "dial_plan": plan, "seed": draw(st.integers(0, 3)),
@@ -270,7 +285,7 @@ def shard_main(shard, nshards, tier, scale):
         wait = draw(st.integers(1, 8))
         wake = draw(st.integers(1, 5))
         flags = {"persistent": draw(st.sampled_from([True, True, True, True, False])), "always": draw(st.booleans()),
-                 "wait": wait, "addr": True, "wakeup": wake}
+                 "wait": wait, "addr": True, "wakeup": wake, "idle": draw(st.sampled_from([1000, 2, 3]))}
         ev = []
         plan = []
         for _ in range(draw(st.integers(1, 4))):
@@ -288,6 +303,8 @@ def shard_main(shard, nshards, tier, scale):
                     ev.append(["CEA", 2001])
                     ev.append(draw(st.sampled_from([["CLOSE"], ["RESET"], ["DPR_CLOSE"], ["DPR_CLOSE"], ["DPR"], ["ADV", 1]])))
                     if ev[-1] == ["DPR"]:
+                        if draw(st.booleans()):
+                            ev.append(["DWA"])
                         ev.append(["ADV", draw(st.integers(1, 3))])
                         ev.append(["CLOSE"])
                 elif cea == "3010":
@@ -315,20 +332,30 @@ def shard_main(shard, nshards, tier, scale):
               "connect-fail": [["CONNECT_FAIL"]],
               "sync-refused": []}
     jobs = []
+    extra_jobs = []
     for lk in losses:
         for persistent in (True, False):
             for always in (True, False):
                 for wait in (1, 2, 5):
                     for wake in (1, 3):
                         jobs.append((lk, persistent, always, wait, wake))
+    for wake in (1, 2):
+        for always in (True, False):
+            ev = [["CONNECT_OK"], ["CEA", 2001], ["ADV", 2 + wake + 1], ["DPR"], ["DWA"], ["ADV", 1], ["DWA"], ["ADV", 3], ["CLOSE"], ["ADV", 6]]
+            extra_jobs.append({"flags": {"persistent": True, "always": always, "wait": 2, "addr": True, "wakeup": wake, "idle": 2},
+                               "dial_plan": [], "events": ev})
     if shard == 0:
-        rec.extra["systematic_jobs"] = len(jobs)
+        rec.extra["systematic_jobs"] = len(jobs) + len(extra_jobs)
     for (lk, persistent, always, wait, wake) in jobs[shard::nshards]:
         ev = list(losses[lk]) + [["ADV", wait + wake + 3]] + list(losses[lk]) + [["ADV", wait + wake + 3]]
         case = {"flags": {"persistent": persistent, "always": always, "wait": wait, "addr": True, "wakeup": wake},
                 "dial_plan": [["sync-error", 111]] * 2 if lk == "sync-refused" else [], "events": ev}
         res = evaluate(case)
         res.classes += ["systematic", f"loss:{lk}"]
+        record(rec, case, res, evaluate, "events", shrunk)
+    for case in extra_jobs[shard::nshards]:
+        res = evaluate(case)
+        res.classes += ["systematic", "dwr-outstanding-at-dpr"]
         record(rec, case, res, evaluate, "events", shrunk)
     return rec.dump()
 
@@ -339,7 +366,7 @@ def run(tier, scale=1.0):
     for d in hyp.pool_run(shard_main, (tier, scale)):
         rec.merge(d)
     required = {"persistent:True": 1, "persistent:False": 1, "always:True": 1, "addr:False": 1, "losses:2": 1,
-                "dpr-on-ready": 1, "reason-dpr": 1, "dials:3": 1, "loss:sync-refused": 1, "loss:cea-timeout": 1}
+                "dpr-on-ready": 1, "dwa-event": 1, "dwr-outstanding-at-dpr": 1, "reason-dpr": 1, "dials:3": 1, "loss:sync-refused": 1, "loss:cea-timeout": 1}
     return finish(rec, tier=tier, level="exploration", rule=RULE, assumptions=ASSUME, t0=t0,
                   required_classes=required)
 
